@@ -77,8 +77,8 @@ func (this *ItemSet) Action(symbol string) (act1 action.Action, conflicts []acti
 
 func (this *ItemSet) AddItem(items ...*Item) {
 	for _, i := range items {
-		if _, contain := this.imap[i.str]; !contain {
-			this.imap[i.str] = i
+		if _, contain := this.imap[i.key()]; !contain {
+			this.imap[i.key()] = i
 			this.Items = append(this.Items, i)
 		}
 	}
@@ -152,15 +152,17 @@ func (this *ItemSet) Closure() (c *ItemSet) {
 }
 
 func (this *ItemSet) Contain(item *Item) bool {
-	if _, contain := this.imap[item.str]; contain {
+	if _, contain := this.imap[item.key()]; contain {
 		return true
 	}
 	return false
 }
 
 func (this *ItemSet) ContainString(item string) bool {
-	if _, contain := this.imap[item]; contain {
-		return true
+	for _, i := range this.Items {
+		if i.str == item {
+			return true
+		}
 	}
 	return false
 }
